@@ -1,8 +1,8 @@
-namespace Merge2
+namespace Merge
 
 structure Ext where
   oid : List Nat
-  body : Nat
+  body : String
 deriving DecidableEq, Repr
 
 structure PExt where
@@ -231,4 +231,4 @@ theorem merge_eq_spec (prof : List PExt) (c : List Ext) : merge prof c = specMer
   have := fold_spec c prof {} (c.map (·, Mark.free)) (by simp [Function.comp_def]) (inv_init 0 c)
   simpa [merge, specMerge] using this
 
-end Merge2
+end Merge
